@@ -1607,6 +1607,10 @@ async fn emit_event(
     let _ = event_log.append(&event);
 }
 
+#[cfg(kani)]
+#[path = "/verif/harness/ripd/session.rs"]
+mod verif_kani;
+
 #[cfg(test)]
 mod tests {
     use super::*;
